@@ -398,7 +398,7 @@ Proof.
     try (rewrite ?Hpc in *; eapply C4; try eassumption; rewrite ?Hpc; reflexivity);
     try (symmetry; rewrite ?Hpc in *; eapply C4; try eassumption; rewrite ?Hpc; reflexivity).
   all: exfalso; pose proof (T _ _ Hth) as Tt;
-    match goal with Hx : threads s ?x = Some ?y, Px : pre_done (t_pc ?y) = true |- _ =>
+    match goal with Hx : threads _ ?x = Some ?y, Px : pre_done (t_pc ?y) = true |- _ =>
       pose proof (T _ _ Hx) as T0; unfold tinv in Tt, T0; rewrite Hpc in Tt; rewrite Px in T0 end;
     cbn_st; bsplit_hyps; destruct (closed s) eqn:?; cbn_st; congruence.
 Qed.
@@ -419,3 +419,244 @@ Proof.
   - apply invB_init.
   - intros; eapply invB_step; eassumption.
 Qed.
+
+(* ------------------------------------------------------------------ *)
+(* Derived theorems                                                    *)
+
+Lemma tinv_of w s t th : reach w s -> threads s t = Some th -> tinv s t th = true.
+Proof. intros R H. destruct (invB_reach w s R) as (T & _). exact (T _ _ H). Qed.
+
+Theorem mutex_held_iff w s t th :
+  reach w s -> threads s t = Some th -> (in_cs (t_pc th) = true <-> mu s = Some t).
+Proof.
+  intros R H. destruct (invB_reach w s R) as (T & G & B2 & C4). split.
+  - intro Hc. pose proof (T _ _ H) as Tt. unfold tinv in Tt. bsplit_hyps.
+    rewrite Hc in *. cbn_st.
+    match goal with Hh : holds (mu s) t = true |- _ =>
+      unfold holds in Hh; destruct (mu s) as [x|]; [apply Nat.eqb_eq in Hh; congruence|discriminate] end.
+  - intro Hm. destruct (B2 _ Hm) as (th' & H1 & H2). congruence.
+Qed.
+
+Theorem mutex_free_when_idle w s :
+  reach w s -> (forall t th, threads s t = Some th -> in_cs (t_pc th) = false) -> mu s = None.
+Proof.
+  intros R Hidle. destruct (invB_reach w s R) as (T & G & B2 & C4).
+  destruct (mu s) as [t|] eqn:Hm; [|reflexivity].
+  destruct (B2 _ eq_refl) as (th & H1 & H2). rewrite (Hidle _ _ H1) in H2. discriminate.
+Qed.
+
+Lemma cs_step_enabled s t th :
+  threads s t = Some th -> in_cs (t_pc th) = true -> exists s', stepf s (Step t 0) = Some s'.
+Proof.
+  intros H Hc. cbn [stepf]. rewrite H. unfold step_thread.
+  destruct (t_pc th); try discriminate Hc; unfold goto, ret;
+    try (eexists; reflexivity);
+    try (destruct (closed s); eexists; reflexivity).
+  destruct (lru_update _ _ _). eexists; reflexivity.
+Qed.
+
+Theorem holder_enabled w s t : reach w s -> mu s = Some t -> enabled s t.
+Proof.
+  intros R Hm. destruct (invB_reach w s R) as (T & G & B2 & C4).
+  destruct (B2 _ Hm) as (th & H1 & H2).
+  destruct (cs_step_enabled _ _ _ H1 H2) as (s' & E). exists 0, s'. exact E.
+Qed.
+
+Theorem no_panic w s : reach w s -> panicked s = false.
+Proof.
+  intros R. destruct (invB_reach w s R) as (T & G & _). unfold ginv in G.
+  apply andb_prop in G as [_ G]. destruct (panicked s); [discriminate|reflexivity].
+Qed.
+
+Theorem close_returned w s t th :
+  reach w s -> threads s t = Some th -> t_watcher th = false -> t_call th = CClose ->
+  (t_pc th = Fin RetNil -> closed s = true /\ done s = true /\ (has_watcher s = true -> watch_done s = true)) /\
+  (t_pc th = Fin RetEarly -> closed s = true).
+Proof.
+  intros R H Hw Hc. pose proof (tinv_of _ _ _ _ R H) as Tt. unfold tinv in Tt.
+  rewrite Hw, Hc in Tt. split; intro Hp; rewrite Hp in Tt; cbn_st; bsplit_hyps;
+    destruct (closed s), (done s), (has_watcher s), (watch_done s); cbn_st; try discriminate; auto.
+Qed.
+
+Theorem late_direct_gets_closed_error w s t th c r :
+  reach w s -> threads s t = Some th -> t_watcher th = false -> t_born_closed th = true ->
+  t_call th = CDirect true c -> t_pc th = Fin r -> r = RetClosed.
+Proof.
+  intros R H Hw Hb Hc Hp. pose proof (tinv_of _ _ _ _ R H) as Tt. unfold tinv in Tt.
+  rewrite Hw, Hb, Hc, Hp in Tt. cbn_st. bsplit_hyps.
+  destruct r; cbn_st; try discriminate; reflexivity.
+Qed.
+
+Theorem born_closed_stays_closed w s t th :
+  reach w s -> threads s t = Some th ->
+  (t_born_closed th = true -> closed s = true) /\ (t_born_done th = true -> done s = true).
+Proof.
+  intros R H. pose proof (tinv_of _ _ _ _ R H) as Tt. unfold tinv in Tt. bsplit_hyps.
+  split; intro Hb; rewrite Hb in *; cbn_st; assumption.
+Qed.
+
+(* once done is closed, nobody waits in a select *)
+Theorem after_done_selects_enabled s t th :
+  threads s t = Some th -> done s = true -> (t_pc th = NxSelect \/ t_pc th = DiSelect) -> enabled s t.
+Proof.
+  intros H Hd [Hp|Hp].
+  - exists 2, (with_threads s (upd (threads s) t (finish th RetClosed))).
+    cbn [stepf]. rewrite H. unfold step_thread. rewrite Hp, Hd. reflexivity.
+  - exists 1, (with_threads s (upd (threads s) t (finish th RetClosed))).
+    cbn [stepf]. rewrite H. unfold step_thread. rewrite Hp, Hd. reflexivity.
+Qed.
+
+Definition waits_for_mutex (p : pc) : bool := match p with ClLock | UnLock | DiLock => true | _ => false end.
+
+(* a thread that can neither step nor is waiting for the mutex is in one of the
+   three waits the API defines: a select with nothing ready, Close waiting for
+   the watcher, the watcher waiting for a pubsub message *)
+Lemma not_enabled_cases s t th :
+  threads s t = Some th -> is_fin (t_pc th) = false ->
+  enabled s t \/
+  (waits_for_mutex (t_pc th) = true /\ exists t', mu s = Some t') \/
+  (t_pc th = ClWaitWatch /\ watch_done s = false) \/
+  (t_pc th = NxSelect /\ done s = false /\ ctx_done s th = false /\ out s = None) \/
+  (t_pc th = DiSelect /\ done s = false /\ ctx_done s th = false /\ out s <> None) \/
+  (t_pc th = WaNext /\ watch_cancelled s = false /\ sub_cancelled s = false).
+Proof.
+  intros H Hf. unfold enabled. cbn [stepf]. rewrite H. unfold step_thread, goto, ret.
+  destruct (t_pc th) eqn:Hp; try discriminate Hf.
+  all: try (left; exists 0; eexists; reflexivity).
+  all: try (left; exists 0; destruct (closed s); eexists; reflexivity).
+  all: try (destruct (mu s) as [x|] eqn:Hm;
+            [right; left; split; [reflexivity|eauto] | left; exists 0; eexists; reflexivity]).
+  - (* ClCancelWatch *) left. exists 0. destruct (has_watcher s); eexists; reflexivity.
+  - (* ClWaitWatch *) destruct (watch_done s) eqn:Hw.
+    + left. exists 0. eexists; reflexivity.
+    + right; right; left. auto.
+  - (* DiAllow *) left. exists 0. destruct (call_allowed (t_call th)); eexists; reflexivity.
+  - (* DiUpdate *) left. exists 0. destruct (lru_update _ _ _). eexists; reflexivity.
+  - (* DiSelect *)
+    destruct (out s) eqn:Ho.
+    + destruct (done s) eqn:Hd; [left; exists 1; eexists; reflexivity|].
+      destruct (ctx_done s th) eqn:Hc; [left; exists 2; eexists; reflexivity|].
+      right; right; right; right; left. repeat split; auto. discriminate.
+    + left. exists 0. eexists; reflexivity.
+  - (* NxSelect *)
+    destruct (ctx_done s th) eqn:Hc; [left; exists 0; eexists; reflexivity|].
+    destruct (out s) eqn:Ho; [left; exists 1; eexists; reflexivity|].
+    destruct (done s) eqn:Hd; [left; exists 2; eexists; reflexivity|].
+    right; right; right; left. auto.
+  - (* WaNext *)
+    destruct (watch_cancelled s || sub_cancelled s) eqn:Hc.
+    + left. exists 0. eexists; reflexivity.
+    + apply orb_false_elim in Hc as [? ?]. right; right; right; right; right. auto.
+Qed.
+
+(* no deadlock: whoever waits for the mutex waits for a thread that can step; Close
+   waiting for the watcher waits for a thread that can step or itself waits for the
+   mutex; all other waits are the API's own (nothing to deliver / not closed / no
+   message) *)
+Theorem progress w s t th :
+  reach w s -> threads s t = Some th -> is_fin (t_pc th) = false ->
+  enabled s t \/
+  (waits_for_mutex (t_pc th) = true /\ exists t', mu s = Some t' /\ enabled s t') \/
+  (t_pc th = ClWaitWatch /\ watch_cancelled s = true /\
+     exists wth, threads s 0 = Some wth /\ t_watcher wth = true /\ is_fin (t_pc wth) = false /\
+       (enabled s 0 \/ (waits_for_mutex (t_pc wth) = true /\ exists t', mu s = Some t' /\ enabled s t'))) \/
+  (t_pc th = NxSelect /\ done s = false /\ ctx_done s th = false /\ out s = None) \/
+  (t_pc th = DiSelect /\ done s = false /\ ctx_done s th = false /\ out s <> None) \/
+  (t_pc th = WaNext /\ watch_cancelled s = false /\ sub_cancelled s = false).
+Proof.
+  intros R H Hf.
+  destruct (not_enabled_cases s t th H Hf) as [E|[(Hw & t' & Hm)|[(Hp & Hwd)|[N|[D|W]]]]]; auto 10.
+  - right; left. split; [assumption|]. exists t'. split; [assumption|]. eapply holder_enabled; eassumption.
+  - right; right; left.
+    pose proof (tinv_of _ _ _ _ R H) as Tt. unfold tinv in Tt. rewrite Hp in Tt. cbn_st. bsplit_hyps.
+    assert (Hwc : watch_cancelled s = true) by assumption.
+    assert (Hhw : has_watcher s = true) by assumption.
+    split; [exact Hp|]. split; [assumption|].
+    destruct (invA_reach w s R) as (A1 & A2 & A3 & A4 & A5 & A6).
+    destruct (A5 Hhw) as (wth & Hw1 & Hw2). exists wth. split; [assumption|]. split; [assumption|].
+    pose proof (tinv_of _ _ _ _ R Hw1) as Tw. unfold tinv in Tw. rewrite Hw2 in Tw. cbn_st. bsplit_hyps.
+    assert (Hnf : is_fin (t_pc wth) = false).
+    { pose proof (A4 _ _ Hw1 Hw2) as Hok.
+      destruct (t_pc wth) as [| | | | | | | | | | | | | | | | | | | | | |r]; try reflexivity.
+      destruct r; cbn in Hok; try discriminate Hok.
+      match goal with Hx : Bool.eqb (watch_done s) _ = true |- _ => rewrite Hwd in Hx; cbn in Hx; discriminate Hx end. }
+    split; [assumption|].
+    destruct (not_enabled_cases s 0 wth Hw1 Hnf) as [E|[(Hwm & t' & Hm)|[(Hp' & _)|[(Hp' & _)|[(Hp' & Hd' & Hc' & _)|(Hp' & Hc' & _)]]]]].
+    + left; assumption.
+    + right. split; [assumption|]. exists t'. split; [assumption|]. eapply holder_enabled; eassumption.
+    + exfalso. pose proof (A4 _ _ Hw1 Hw2) as Hok. rewrite Hp' in Hok. discriminate Hok.
+    + exfalso. pose proof (A4 _ _ Hw1 Hw2) as Hok. rewrite Hp' in Hok. discriminate Hok.
+    + exfalso. unfold ctx_done in Hc'. rewrite Hw2 in Hc'. congruence.
+    + exfalso. congruence.
+Qed.
+
+(* every own step brings a thread closer to returning (the watcher: to waiting for the
+   next message or to exiting), whatever the other threads do *)
+Theorem rank_decreases s t c s' th :
+  stepf s (Step t c) = Some s' -> threads s t = Some th ->
+  exists th', threads s' t = Some th' /\ rank (t_pc th') < rank (t_pc th).
+Proof.
+  intros E H. cbn [stepf] in E. rewrite H in E. unfold step_thread, goto, ret in E.
+  destruct (t_pc th) eqn:Hp;
+    repeat match type of E with
+    | context [match mu s with _ => _ end] => destruct (mu s)
+    | context [if closed s then _ else _] => destruct (closed s)
+    | context [if has_watcher s then _ else _] => destruct (has_watcher s)
+    | context [if watch_done s then _ else _] => destruct (watch_done s)
+    | context [if call_allowed ?x then _ else _] => destruct (call_allowed x)
+    | context [let '(_, _) := lru_update ?a ?b ?x in _] => destruct (lru_update a b x) as [hit l']
+    | context [match c with _ => _ end] => destruct c as [|[|c]]
+    | context [match out s with _ => _ end] => destruct (out s)
+    | context [if done s then _ else _] => destruct (done s)
+    | context [if ctx_done s th then _ else _] => destruct (ctx_done s th)
+    | context [if ?a || ?b then _ else _] => destruct (a || b)
+    end; try discriminate E; inversion E; subst; clear E;
+    cbn [threads with_threads]; rewrite upd_same; eexists; (split; [reflexivity|]);
+    unfold finish; try destruct hit; destruct (t_watcher th); cbn; lia.
+Qed.
+
+(* a step of one thread does not touch the others *)
+Theorem step_frame s t c s' x :
+  stepf s (Step t c) = Some s' -> x <> t -> threads s' x = threads s x.
+Proof.
+  intros E Hne. cbn [stepf] in E. destruct (threads s t) as [th|] eqn:H; [|discriminate].
+  unfold step_thread, goto, ret in E.
+  destruct (t_pc th);
+    repeat match type of E with
+    | context [match mu s with _ => _ end] => destruct (mu s)
+    | context [if closed s then _ else _] => destruct (closed s)
+    | context [if has_watcher s then _ else _] => destruct (has_watcher s)
+    | context [if watch_done s then _ else _] => destruct (watch_done s)
+    | context [if call_allowed ?y then _ else _] => destruct (call_allowed y)
+    | context [let '(_, _) := lru_update ?a ?b ?y in _] => destruct (lru_update a b y) as [hit l']
+    | context [match c with _ => _ end] => destruct c as [|[|c]]
+    | context [match out s with _ => _ end] => destruct (out s)
+    | context [if done s then _ else _] => destruct (done s)
+    | context [if ctx_done s th then _ else _] => destruct (ctx_done s th)
+    | context [if ?a || ?b then _ else _] => destruct (a || b)
+    end; try discriminate E; inversion E; subst; clear E;
+    cbn [threads with_threads]; apply upd_other; assumption.
+Qed.
+
+(* non-vacuity: a concrete schedule with a watcher in which Close races with a
+   Direct, a Next and a second Close, and everybody returns *)
+Definition demo_schedule : list label :=
+  [Spawn (CDirect true 7); Spawn CNext; Spawn CClose; Spawn CClose;
+   Step 1 0; Step 1 0; Step 1 0; Step 1 0; Step 1 0; Step 1 0;   (* Direct delivers 7 *)
+   Step 3 0; Step 3 0; Step 3 0; Step 3 0; Step 3 0;             (* first Close up to cancelWatch *)
+   Step 4 0; Step 4 0; Step 4 0;                                  (* second Close returns early *)
+   Step 2 1;                                                      (* Next gets 7 *)
+   Step 3 0;                                                      (* cancelWatch *)
+   Step 0 0; Step 0 0;                                            (* watcher exits *)
+   Step 3 0].                                                     (* Close returns *)
+
+Example demo_runs :
+  match run stepf (init true) demo_schedule with
+  | Some s => (closed s, done s, watch_done s, panicked s,
+               match threads s 1, threads s 2, threads s 3, threads s 4 with
+               | Some a, Some b, Some c, Some d => Some (t_pc a, t_pc b, t_pc c, t_pc d)
+               | _, _, _, _ => None
+               end)
+  | None => (false, false, false, true, None)
+  end = (true, true, true, false, Some (Fin RetNil, Fin (RetAnn 7%N), Fin RetNil, Fin RetEarly)).
+Proof. vm_compute. reflexivity. Qed.
